@@ -18,7 +18,9 @@ RULE = (
     "evaluator on the spec: bounds (0,0) iff rule false under the cumulative knock-out set, otherwise the original "
     "bounds; knocked-out genes non-functional, others functional; reaction.functional == rule value; raw GLPK columns "
     "agree; knock_out_model_genes returns exactly the associated reactions whose rule is false; after the context "
-    "everything is restored. Non-trivial: some rule with >=2 genes stays true while another becomes false."
+    "everything is restored. In a third of the cases the rules were evaluated once and then rewritten in place by "
+    "remove_genes(remove_reactions=False) or rename_genes (incl. merges) before the knock-outs; the expected rules are "
+    "derived on the spec. Non-trivial: some rule with >=2 genes stays true while another becomes false."
 )
 ASSUMPTIONS = [
     "gprtree.evaluate (20 lines, and/or over a tree) is the reference Boolean semantics.",
@@ -46,6 +48,12 @@ def cases(draw, exhaustive=False):
         "pre": draw(st.sampled_from([0, 0, 1, 2])),
         "again": draw(st.booleans()),
         "nested": draw(st.sampled_from([False, False, True])),
+        # the rules may have been rewritten in place before (remove_genes / rename_genes edit the rule objects), after the
+        # rules were already evaluated once (reaction.functional, a knock-out round in a context that was left)
+        "rewrite": None if exhaustive else draw(st.one_of(
+            st.none(), st.none(),
+            st.tuples(st.just("remove"), st.lists(st.integers(0, 5), min_size=1, max_size=2, unique=True)),
+            st.tuples(st.just("rename"), st.lists(st.tuples(st.integers(0, 5), st.integers(0, 7)), min_size=1, max_size=2, unique_by=lambda t: t[0])))),
         "exhaustive": exhaustive,
     }
 
@@ -71,12 +79,75 @@ def verify_state(model, spec, knocked, rxn_ko, where):
     observe.audit_solver(model, None, where)
 
 
+def rewrite_rules(model, spec, rewrite, order, classes):
+    """Evaluate every rule once, then let remove_genes(remove_reactions=False) / rename_genes rewrite the rules in place.
+    Returns the spec of the rewritten model (derived on the spec by the documented semantics, independent of the library)
+    and the knock-out order mapped to the genes that exist afterwards."""
+    from cobra.manipulation import remove_genes, rename_genes
+
+    gids = [g["id"] for g in spec["genes"]]
+    if not gids:
+        return spec, order
+    # warm-up: functional flags, and one full knock-out round inside a context that is left again
+    for rx in model.reactions:
+        rx.functional
+    with model:
+        for gid in order:
+            model.genes.get_by_id(gid).knock_out()
+        for rx in model.reactions:
+            rx.functional
+    verify_state(model, spec, [], None, "warm-up")
+    kind, arg = rewrite
+    rxns = [dict(r) for r in spec["rxns"]]
+    if kind == "remove":
+        gone = sorted({gids[i % len(gids)] for i in arg})
+        remove_genes(model, gone, remove_reactions=False)
+        for r in rxns:
+            if r["gpr"] is not None and gprtree.leaves(r["gpr"]) & set(gone):
+                new = gprtree.restrict(r["gpr"], set(gone))
+                r["gpr"] = None if new is False else new  # nothing remains of an unsatisfiable rule
+        genes = [g for g in spec["genes"] if g["id"] not in gone]
+        order = [g for g in order if g not in gone]
+        classes.add("~rules-rewritten-by-remove_genes")
+    else:
+        names = gids + ["gNEW1", "gNEW2"]
+        mapping = {}
+        for i, j in arg:
+            old, new = gids[i % len(gids)], names[j % len(names)]
+            if old != new and old not in mapping and new not in mapping and old not in mapping.values():
+                mapping[old] = new  # no chains (documented as undefined); two genes may share a target
+        if not mapping:
+            return spec, order
+        rename_genes(model, dict(mapping))
+
+        def ren(t):
+            if t is None or isinstance(t, str):
+                return mapping.get(t, t)
+            return [t[0], *[ren(x) for x in t[1:]]]
+
+        for r in rxns:
+            r["gpr"] = ren(r["gpr"])
+        seen, genes = set(), []
+        for g in spec["genes"]:
+            gid = mapping.get(g["id"], g["id"])
+            if gid not in seen:
+                seen.add(gid)
+                genes.append({**g, "id": gid})
+        order = list(dict.fromkeys(mapping.get(g, g) for g in order))
+        classes.add("~rules-rewritten-by-rename_genes")
+        if any(v in gids for v in mapping.values()):
+            classes.add("~genes-merged-by-rename")
+    return {**spec, "rxns": rxns, "genes": genes}, order
+
+
 def run_order(case, order, ctx, classes):
     from cobra.manipulation import knock_out_model_genes
 
     spec = case["spec"]
     build.reset_globals()
     model = build.build_model(spec, case["path"])
+    if case.get("rewrite"):
+        spec, order = rewrite_rules(model, spec, case["rewrite"], order, classes)
     route = case["route"]
     rxn_ko = None
     cm = model if case["context"] else None
